@@ -255,6 +255,11 @@ func (m *Machine) slice(f *frame, x *ssa.Slice) Value {
 		}
 		k, ok := concreteInt(m.get(f, v))
 		if !ok {
+			if m.approxBits {
+				// effect harnesses: the extent of a slice that is only read does not matter; take the default extent
+				m.stats["approx_slice_bound"]++
+				return def
+			}
 			panic("symbolic slice bound")
 		}
 		return k
@@ -663,7 +668,16 @@ func (m *Machine) intrinsic(fn *ssa.Function, args []Value) (Value, bool) {
 			c = cAnd(c, m.binop(token.EQL, x, y, types.Typ[types.Bool], types.Typ[types.Uint8], 0).(VBool).c)
 		}
 		if m.intMode {
-			panic("ConstantTimeCompare in int mode")
+			if k, ok := c.isConst(); ok {
+				if k {
+					return m.constInt(big.NewInt(1), types.Typ[types.Int]), true
+				}
+				return m.constInt(big.NewInt(0), types.Typ[types.Int]), true
+			}
+			r := m.nondet("ctc", 8, false, big.NewInt(0), big.NewInt(1)).(VInt)
+			e := cCmp("=", r.lin, linConstI(1))
+			m.defs = append(m.defs, m.cor(cAnd(e, c), cAnd(cNot(e), cNot(c))))
+			return r, true
 		}
 		return VInt{bv: ite(c.bv, bvConstI(1, 64), bvConstI(0, 64))}, true
 	}
